@@ -61,7 +61,7 @@ var (
 	suffixes = []string{"", "", "", ".go", ".c", "-old", "-data", "0", "1", " b", "(1)", "(", "+", "_", ".", "[", "ü", " ", "-", "+x", ".txt", ".log", ".tmp", ".tmpx", ".c++", "\xff", "%d", "%", "100%s", `\b`, `\`}
 	// IgnoreDirs / IgnoreExts are what a generated .goitignore may contain. Extensions are never
 	// used in directory names, so "ignored" is unambiguous in the generated domain.
-	IgnoreDirs = []string{"build", "lib-old", "test.c"}
+	IgnoreDirs = []string{"build", "lib-old", "test.c", "r\xe9sum\xe9"}
 	IgnoreExts = []string{".log", ".tmp", ".tmpx", ".c++"}
 )
 
@@ -134,6 +134,20 @@ func (g *G) IgnoreFile() []byte {
 	for i := len(lines) - 1; i > 0; i-- {
 		j := g.Int(0, i, "shuffle")
 		lines[i], lines[j] = lines[j], lines[i]
+	}
+	if g.Chance(30, "blankLines") {
+		// blank lines between the entries and at the end, as in every hand-written list
+		var spaced []string
+		for i, ln := range lines {
+			if i > 0 && g.Bool("blankBefore") {
+				spaced = append(spaced, "")
+			}
+			spaced = append(spaced, ln)
+		}
+		if g.Bool("blankAtEnd") {
+			spaced = append(spaced, "")
+		}
+		lines = spaced
 	}
 	if g.Chance(8, "manyEntries") {
 		// a long list (more than 4 KiB, sometimes more than 8 KiB): the entries that matter are at the top, in the middle or at the end
